@@ -406,6 +406,37 @@ def run_case(case, ctx):
                    expected=worst_at['expected'], detail=dict(worst_at, diff=getattr(diff, '__name__', '?'),
                                                               qclass=qclass))
         return
+    # ---- (b') the same with integer-typed data: an integer point, integral steps (integral ratio) and a polynomial with integer
+    # coefficients give difference quotients of integer dtype for the one-sided rules; the rule applied to them is the same rule
+    if method in ('forward', 'backward') and float(ratio).is_integer() and n + method_order <= 6 and T <= 4:
+        ri = int(ratio)
+        his = [ri ** (T + 1 - k) for k in range(T + 2)]                 # descending integral steps
+        deg = n + method_order - 1
+        cint = [3, -2, 5, 1, -4, 2, 1][:deg + 1]
+        x_int = 2
+
+        def pint(t):
+            v_ = 0 * t
+            for k_, c_ in enumerate(cint):
+                v_ = v_ + c_ * t ** k_
+            return v_
+        # exact n-th derivative at x_int
+        exact_i = 0
+        for k_, c_ in enumerate(cint):
+            if k_ >= n:
+                exact_i += c_ * math.factorial(k_) // math.factorial(k_ - n) * x_int ** (k_ - n)
+        try:
+            seq_i = [diff(pint, pint(np.int64(x_int)), np.int64(x_int), np.int64(h_)) for h_ in his]
+            der_i, _hh, _ = rule_obj.apply(seq_i, [float(h_) for h_ in his], ratio)
+            der_i = np.asarray(der_i, dtype=float).ravel()
+            ctx.count('integer_typed_quotients_asserted')
+            scale_i = sum(abs(c_) * (x_int + his[0]) ** k_ for k_, c_ in enumerate(cint)) * float(np.sum(np.abs(w))) / float(his[-1]) ** n
+            if not np.all(np.abs(der_i - exact_i) <= 1e-9 * max(scale_i, 1.0)):
+                ctx.reject('difference_quotient_through_rule_not_exact', observed=der_i, expected=exact_i,
+                           detail=dict(integer_typed=True, steps=his, degree=deg, quotient_dtype=str(np.asarray(seq_i[0]).dtype)))
+                return
+        except Exception as exc:
+            ctx.count('integer_typed_quotients_raised:%s' % type(exc).__name__)
     parity = {'forward': 0, 'backward': 0, 'central_odd': 1, 'central_even': 2, 'complex1': 1 if n % 2 else 2,
               'complex_even': 3, 'complex_even_higher': 4, 'complex_odd': 5, 'complex_odd_higher': 6}[qclass]
     if T >= 2:
